@@ -132,6 +132,15 @@ func buildProvs() map[string]*Prov {
 		recordProv("field", ClassInput, true, true, func() string { return mainRule(Code("$2")) }),
 		recordProv("record", ClassInput, true, false, func() string { return mainRule(Code("$0")) }),
 		recordProv("last-field", ClassInput, true, true, func() string { return mainRule(Code("$NF")) }),
+		// the field was assigned by the program in the record before: the next record's field is input again
+		recordProv("field-after-assign", ClassInput, true, true, func() string { return mainRule(Code("$2") + "$2 = \"s\"\n$1 = 7\n") }),
+		// ... or in this record, before $0 was assigned (which splits it anew)
+		recordProv("field-resplit", ClassInput, true, true, func() string {
+			return mainRule("_r = $0\n$2 = \"s\"\n$1 = 7\n$0 = _r\n" + Code("$2"))
+		}),
+		recordProv("getline-rec-field-after-assign", ClassInput, true, true, func() string {
+			return beginRule("while ((getline) > 0) {\n" + Code("$2") + "$2 = \"s\"\n}\n")
+		}),
 		recordProv("getline-var", ClassInput, true, false, func() string {
 			return beginRule("while ((getline _x) > 0) {\n" + Code("_x") + "}\n")
 		}),
@@ -363,7 +372,7 @@ func ProvNames(classes ...string) []string {
 }
 
 var provOrder = []string{
-	"field", "record", "last-field", "getline-var", "getline-local", "getline-elem", "getline-rec", "getline-rec-field",
+	"field", "record", "last-field", "field-after-assign", "field-resplit", "getline-rec-field-after-assign", "getline-var", "getline-local", "getline-elem", "getline-rec", "getline-rec-field",
 	"getline-file-var", "getline-file-rec", "getline-file-field", "cmd-getline-var", "cmd-getline-rec",
 	"split-literal", "split-fs", "split-regex", "assigned-var", "assigned-elem", "param",
 	"argv", "environ", "vars", "operand", "csv-field",
